@@ -343,16 +343,21 @@ def one_call(spec, what):
         tempfile.tempdir = saved_env[2]
     after = sorted(set(os.listdir(tmp)) - before)
     left, foreign = [], []
-    for f in after:
+    for i, p in enumerate(inj.names):          # wherever the code created them (TMPDIR or elsewhere)
+        if os.path.lexists(p):
+            left.append(i)
+            try:
+                os.unlink(p)
+            except OSError:
+                pass
+    for f in after:                            # anything else that appeared in the private TMPDIR
         p = os.path.join(tmp, f)
-        if p in inj.names:
-            left.append(inj.names.index(p))
-        else:
+        if p not in inj.names:
             foreign.append(f)
-        try:
-            os.unlink(p)
-        except OSError:
-            pass
+            try:
+                os.unlink(p)
+            except OSError:
+                pass
     return {"out": out, "left": sorted(left), "foreign": foreign,
             "refused": [inj.names.index(p) for p in inj.refused if p in inj.names],
             "started": inj.started, "trace": inj.trace, "created": len(inj.names),
